@@ -11,7 +11,7 @@ def index_cfg(maxlen, maxtable, method_sets=(("GET",),), req_methods=("GET",), e
     c.update(dev)
     c.update(MaxLen=maxlen, MaxTable=maxtable, MethodSets=core.SetOfSets([list(m) for m in method_sets]),
              ReqMethods=set(req_methods))
-    return core.cfg(constants=c, invariants=["Agree", "Sound", "Complete", "StaticWins"] + (["Emit"] if emit else []))
+    return core.cfg(constants=c, invariants=["Agree", "Sound", "Complete", "StaticWins", "ListingOK"] + (["Emit"] if emit else []))
 
 
 def pool_file(pool, chars=ALPHA5, extra_paths=()):
@@ -57,7 +57,7 @@ def negs(chk, which=None):
         chk.expect_fails(r, "MC_Index[%s]" % sw, "Agree")
 
 
-SEL = {"selection", "lost-route", "unsound-match", "lookup-panic", "registration-panic", "trace"}
+SEL = {"selection", "lost-route", "unsound-match", "lookup-panic", "registration-panic", "trace", "listing"}
 
 
 def run(chk):
